@@ -77,6 +77,9 @@ type Conn struct {
 	// stalled: the client is not reading (Write blocks); writeBlocked: the server side is blocked in Write right now
 	stalled      bool
 	writeBlocked bool
+	// wdeadline: a finite write deadline is armed (SetDeadline / SetWriteDeadline with a non-zero time)
+	wdeadline  bool
+	tornWrites int
 }
 
 // NewConn makes a connection with the given remote address.
@@ -169,6 +172,19 @@ func (c *Conn) WaitSettled(d time.Duration) (writeBlocked, ok bool) {
 func (c *Conn) Write(p []byte) (int, error) {
 	c.mu.Lock()
 	defer c.mu.Unlock()
+	if c.stalled && !c.closed && c.wdeadline {
+		// the peer is not reading and a write deadline is armed: as on a real socket, part of the data has left when the
+		// deadline expires and the call reports a timeout for the rest
+		n := len(p) / 2
+		if n == 0 && len(p) > 0 {
+			n = 1
+		}
+		b := append([]byte{}, p[:n]...)
+		c.log(EvWrite, b, time.Time{}, "timeout after a partial write")
+		c.out = append(c.out, b...)
+		c.tornWrites++
+		return n, TimeoutErr{}
+	}
 	for c.stalled && !c.closed {
 		c.writeBlocked = true
 		c.cond.Broadcast()
@@ -209,6 +225,7 @@ func (c *Conn) RemoteAddr() net.Addr { return c.remote }
 // SetDeadline logs.
 func (c *Conn) SetDeadline(t time.Time) error {
 	c.mu.Lock()
+	c.wdeadline = !t.IsZero()
 	c.log(EvDeadline, nil, t, "")
 	c.mu.Unlock()
 	return nil
@@ -225,6 +242,7 @@ func (c *Conn) SetReadDeadline(t time.Time) error {
 // SetWriteDeadline logs.
 func (c *Conn) SetWriteDeadline(t time.Time) error {
 	c.mu.Lock()
+	c.wdeadline = !t.IsZero()
 	c.log(EvWriteDeadline, nil, t, "")
 	c.mu.Unlock()
 	return nil
@@ -278,6 +296,9 @@ func (c *Conn) WaitIdleTimeout(d time.Duration) (closed, ok bool) {
 		return false, false
 	}
 }
+
+// TornWrites reports how many writes ended in a timeout after part of their data had been written.
+func (c *Conn) TornWrites() int { c.mu.Lock(); defer c.mu.Unlock(); return c.tornWrites }
 
 // Closed reports whether Close was called.
 func (c *Conn) Closed() bool { c.mu.Lock(); defer c.mu.Unlock(); return c.closed }
